@@ -622,6 +622,16 @@ func errorsIs(e *Engine, st *State, args []Value, depth int, pos string, k func(
 }
 
 func errorsAs(e *Engine, st *State, args []Value, depth int, pos string, k func(*State, Value)) {
+	if id, isOpaque := opaqueErrID(args[0]); isOpaque {
+		if tiv, ok := args[1].(VIface); ok {
+			if pt, ok := tiv.Typ.(*types.Pointer); ok {
+				if n, ok := pt.Elem().(*types.Named); ok {
+					k(st, sym(st.declare(fmt.Sprintf("err.%d.is.%s", id, n.Obj().Name()), SBool)))
+					return
+				}
+			}
+		}
+	}
 	// target is *T inside an interface
 	tiv, ok := args[1].(VIface)
 	if !ok {
